@@ -449,6 +449,10 @@ TickitRenderBuffer *tickit_renderbuffer_new(int lines, int cols)
   for(int line = 0; line < rb->lines; line++) {
     rb->cells[line] = malloc(rb->cols * sizeof(RBCell));
 
+    /* a buffer without columns has no cells: there is no cells[line][0] to initialise */
+    if(rb->cols < 1)
+      continue;
+
     rb->cells[line][0].state     = SKIP;
     rb->cells[line][0].maskdepth = -1;
     rb->cells[line][0].cols      = rb->cols;
@@ -640,6 +644,9 @@ void tickit_renderbuffer_reset(TickitRenderBuffer *rb)
     // cont_cell also frees pen
     for(int col = 0; col < rb->cols; col++)
       cont_cell(&rb->cells[line][col], 0);
+
+    if(rb->cols < 1)
+      continue;
 
     rb->cells[line][0].state     = SKIP;
     rb->cells[line][0].maskdepth = -1;
